@@ -302,6 +302,7 @@ def pEdit : P Edit
   | "upsert" :: r => (pUnit r).map fun (u, r) => (.upsertUnit u, r)
   | "addwavs" :: r => (pCounted pHex r).map fun (ps, r) => (.addWavs ps, r)
   | "setuprp" :: r => (pCounted pCuwp r).map fun (cs, r) => (.replaceUprp cs, r)
+  | "setmrgn" :: r => (pCounted pLoc r).map fun (ls, r) => (.replaceMrgn ls, r)
   | "reload" :: r => some (.reload, r)
   | _ => none
 
